@@ -27,6 +27,13 @@ and, besides the certificates above on every reported width,
       invariance under re-ordering, sub-sequences, repeated pressures, where the loop stops) run by Drv/Char.lean (`hksolve`, `hksolvecy`)
       with the measured first-position widths as the minimiser, against the widths the library's loop returned for the whole sequence;
   (f) widths non-decreasing as a function of pressure: checked on the points sorted by pressure, whatever their order in the call.
+
+Representation of the arguments ("any increasing loading"): the same points reach the raw functions as float64 arrays, lists, tuples, pandas Series
+(row labels not 0..n-1), whole-number loadings as Python ints / int64 / int32 / int16 / uint16 arrays / integer Series, and the isotherm entry point
+as isotherms whose loading column holds integers (lists of ints, integer arrays, integer DataFrame columns); the bookkeeping clauses (cumulative volume
+= adsorbed amount as liquid volume, distribution = finite-difference derivative, interval means) are checked on every one of them — at the raw functions
+AND at psd_microporous against the formula (not only against the raw function, which would share a defect) — and the caller's arguments must be unchanged
+after the call.  Props/C17.lean `hk_volume_integer_loading`: the liquid volume of a whole-number loading is not a whole number in general (witness).
 """
 import math
 from fractions import Fraction
@@ -86,6 +93,35 @@ def point_order(rng, mode, n):
     elif mode == "duplicate" and n >= 1:              # one point (pressure and loading) appears twice, anywhere
         idx.insert(rng.randrange(n + 1), rng.randrange(n))
     return idx
+
+
+# representation of the loading argument: the property quantifies over "any increasing loading", the physics does not depend on the container or dtype
+FLOAT_KINDS = ["float64 array", "float64 array", "float64 array", "float list", "float tuple", "float Series"]
+INT_KINDS = ["python ints", "int64 array", "int32 array", "int16 array", "uint16 array", "int Series", "whole-number floats"]
+BOOK_CUM = "cumulative pore volume is not the adsorbed amount as liquid volume"
+BOOK_DIST = "distribution is not the finite-difference derivative of the cumulative volume"
+BOOK_MEAN = "reported widths are not the interval means of the solved widths"
+ARG_CLAUSE = "the caller's pressure / loading argument is modified by the analysis"
+
+
+def as_kind(np, pd, kind, values, rng):
+    """the numbers `values` (floats; whole numbers for the integer kinds) in the container / dtype `kind`"""
+    if kind == "float list":
+        return [float(x) for x in values]
+    if kind == "float tuple":
+        return tuple(float(x) for x in values)
+    if kind == "python ints":
+        return [int(x) for x in values]
+    if kind.endswith("Series"):
+        start = rng.choice([1, 5, 100])
+        return pd.Series(np.array(values, dtype=np.int64 if kind.startswith("int") else float), index=range(start, start + len(values)))
+    if kind.endswith("array") and not kind.startswith("float"):
+        return np.array([int(x) for x in values], dtype=getattr(np, kind.split()[0]))
+    return np.array(values, dtype=float)
+
+
+def snapshot(np, x):
+    return (type(x).__name__, str(getattr(x, "dtype", "")), [float(v) for v in np.asarray(x).ravel()])
 
 
 def model_params(T, ads, mat):
@@ -159,6 +195,7 @@ def pot_value(reply):
 def run(ck):
     pg = import_pygaps()
     import numpy as np
+    import pandas as pd
     import pygaps.characterisation as pgc
     import pygaps.characterisation.psd_micro as pm
     from pygaps.characterisation.models_hk import _ADSORBENT_MODELS
@@ -291,10 +328,50 @@ def run(ck):
                 lines.append(f"hksolve {q(r['geo'])} {qlist(ps)} {qlist([ps[j] for j in keys])} {qlist([table[j] for j in keys])}")
             plan.append(("hksolve", (L, sig, detail)))
 
+    def bookkeeping(sig_, detail_, L, geo, d_mat, load_used, ads_, w_avg, dist, cum):
+        """cumulative volume = adsorbed amount as liquid volume, distribution = its finite-difference derivative, widths = interval means
+        (against the formula written here; tolerances as at the raw functions: measured on the unchanged tree <= 3e-16 / 1e-15)"""
+        m = len(L)
+        vliq = [float(x) * ads_["adsorbate_molar_mass"] / ads_["liquid_density"] / 1000 for x in load_used]
+        rep = [(l - d_mat) if geo == "slit" else (2 * l - d_mat) for l in L]
+        w_avg, dist, cum = (np.asarray(x, dtype=float) for x in (w_avg, dist, cum))
+        if not (len(w_avg) == len(dist) == len(cum) == m - 1):
+            ck.fail_case({**sig_, "clause": "result arrays do not have one entry per interval"}, {**detail_, "lengths": [len(w_avg), len(dist), len(cum)], "widths_found": m})
+            return
+        e = max([relerr(float(a), b) for a, b in zip(cum, vliq[1:m])] or [0.0])
+        note("cumulative (entry point)", e)
+        if e > 1e-12:
+            ck.fail_case({**sig_, "clause": BOOK_CUM}, {**detail_, "got": [float(x) for x in cum[:4]], "expected": vliq[1:5]})
+        dv, dw = np.diff(np.array(vliq[:m])), np.diff(np.array(rep))
+        good = np.abs(dw) > 1e-9
+        if np.any(good) and np.max(np.abs(dv)) > 0:
+            e = float(np.max(np.abs(dist[good] * dw[good] - dv[good]) / np.max(np.abs(dv))))
+            note("dist*dw-dV (entry point)", e)
+            if not e <= 1e-9:
+                ck.fail_case({**sig_, "clause": BOOK_DIST}, {**detail_, "worst": e})
+        e = max([abs(float(a) - (x + y) / 2) for a, x, y in zip(w_avg, rep, rep[1:])] or [0.0])
+        if not e <= 1e-12:
+            ck.fail_case({**sig_, "clause": BOOK_MEAN}, {**detail_, "worst": e})
+
+    def synth_isotherm(ps, load, T, how, **extra):
+        """a point isotherm in mmol/g over relative pressure; `how` = the representation of the loading column the constructor receives"""
+        common = dict(material="pgv-synth", adsorbate="N2", temperature=T, pressure_mode="relative", pressure_unit=None, loading_basis="molar", loading_unit="mmol",
+                      material_basis="mass", material_unit="g", temperature_unit="K", **extra)
+        if how.endswith("DataFrame column"):
+            col = np.array(load, dtype=np.int64) if how.startswith("int") else np.array(load, dtype=float)
+            start = rng.choice([0, 0, 1, 7])
+            frame = pd.DataFrame({"pressure": [float(x) for x in ps], "loading": col}, index=range(start, start + len(ps)))
+            return pg.PointIsotherm(isotherm_data=frame, pressure_key="pressure", loading_key="loading", **common)
+        lo_ = as_kind(np, pd, {"python ints": "python ints", "int64 array": "int64 array", "int32 array": "int32 array", "float list": "float list"}.get(how, "float64 array"), load, rng)
+        return pg.PointIsotherm(pressure=list(ps), loading=lo_, **common)
+
+    ISO_FLOAT = ["float list", "float list", "float64 array", "float DataFrame column"]
+    ISO_INT = ["python ints", "int64 array", "int32 array", "int DataFrame column", "whole-number floats"]
+
     try:
         for i in range(N):
             ads, (mname, mat) = adsorbate_set(), material_set()
-            T = rng.uniform(70, 300)
+            T = rng.uniform(70, 300) if rng.random() < 0.85 else rng.randint(70, 300)          # also a temperature given as a whole number (Python int)
             model = rng.choice(["HK", "HK", "HK-CY", "RY", "RY-CY"])
             geo = rng.choice(["slit", "slit", "cylinder", "sphere"])
             d_eff = (ads["molecular_diameter"] + mat["molecular_diameter"]) / 2
@@ -311,8 +388,13 @@ def run(ck):
                     continue
             else:
                 ps = sorted({logu(rng, 1e-7, 0.2) for _ in range(npts)})
-            inc = [rng.uniform(0.05, 1) for _ in ps]
-            load = [float(x) for x in np.cumsum(inc)]
+            whole = rng.random() < 0.4
+            if whole:        # data recorded in whole mmol/g: small numbers (every liquid volume below 1 cm3/g) and large ones
+                load = [float(x) for x in np.cumsum([rng.randint(1, rng.choice([1, 3, 3, 8, 40])) for _ in ps])]
+            else:
+                load = [float(x) for x in np.cumsum([rng.uniform(0.05, 1) for _ in ps])]
+            lkind = rng.choice(INT_KINDS if whole else FLOAT_KINDS)
+            pkind = lkind if lkind in ("float list", "float tuple", "float Series") else "float list" if lkind == "python ints" else "float Series" if lkind == "int Series" else "float64 array"
             # the order in which the points are handed over (loading stays an increasing function of pressure)
             order_mode = rng.choice(ORDER_MODES)
             idx = point_order(rng, order_mode, len(ps))
@@ -326,7 +408,13 @@ def run(ck):
             fn = pm.psd_horvath_kawazoe if model.startswith("HK") else pm.psd_horvath_kawazoe_ry
             rec.clear()
             try:
-                w_avg, dist, cum = fn(np.array(ps), np.array(load), T, geo, ads, mat, use_cy=model.endswith("CY"))
+                p_arg, l_arg = as_kind(np, pd, pkind, ps, rng), as_kind(np, pd, lkind, load, rng)
+                before = (snapshot(np, p_arg), snapshot(np, l_arg))
+                ck.count(("loading kind", lkind, model[:2], geo, len(ps) > 2), bucket=f"loading given as:{lkind}")
+                w_avg, dist, cum = fn(p_arg, l_arg, T, geo, ads, mat, use_cy=model.endswith("CY"))
+                if (snapshot(np, p_arg), snapshot(np, l_arg)) != before:
+                    ck.fail_case({**sig, "clause": ARG_CLAUSE, "loading_given_as": lkind}, {"T": T, "adsorbate": ads, "material": mat, "pressure": ps, "loading": load,
+                                                                                          "before": before, "after": (snapshot(np, p_arg), snapshot(np, l_arg))})
             except (CalculationError, ParameterError) as e:
                 ck.fail_case({**sig, "clause": "analysis refused"}, {"T": T, "adsorbate": ads, "material": mat, "error": str(e)[:200]})
                 continue
@@ -338,7 +426,8 @@ def run(ck):
                 continue
             r = rec[0]
             L = r["L"]
-            detail = {"T": T, "adsorbate": ads, "material_name": mname, "material": mat, "pressure": ps, "loading": load}
+            detail = {"T": T, "adsorbate": ads, "material_name": mname, "material": mat, "pressure": ps, "loading": load, "loading_given_as": lkind, "pressure_given_as": pkind}
+            sig_b = {**sig, "loading_dtype": "integer" if whole and lkind != "whole-number floats" else "float"}
             # (a) certificate: every width solves exp(phi(L) - correction) = p
             cov = None if not r["cy"] else r["n"] / (max(r["n"]) * 1.01)
             resid, at_bound, corrs = [], [], []
@@ -462,17 +551,17 @@ def run(ck):
             e = max([relerr(float(a), b) for a, b in zip(cum, vliq[1:m])] or [0.0])
             note("cumulative", e)
             if e > 1e-12:
-                ck.fail_case({**sig, "clause": "cumulative pore volume is not the adsorbed amount as liquid volume"}, {**detail, "got": [float(x) for x in cum[:4]], "expected": vliq[1:5]})
+                ck.fail_case({**sig_b, "clause": BOOK_CUM}, {**detail, "got": [float(x) for x in cum[:4]], "expected": vliq[1:5]})
             dv, dw = np.diff(np.array(vliq[:m])), np.diff(np.array(rep))
             good = np.abs(dw) > 1e-9
             if np.any(good):
                 e = float(np.max(np.abs(np.asarray(dist, dtype=float)[good] * dw[good] - dv[good]) / np.max(np.abs(dv))))
                 note("dist*dw-dV", e)
                 if e > 1e-9:
-                    ck.fail_case({**sig, "clause": "distribution is not the finite-difference derivative of the cumulative volume"}, {**detail, "worst": e})
+                    ck.fail_case({**sig_b, "clause": BOOK_DIST}, {**detail, "worst": e})
             e = max([abs(float(a) - (x + y) / 2) for a, x, y in zip(w_avg, rep, rep[1:])] or [0.0])
             if e > 1e-12:
-                ck.fail_case({**sig, "clause": "reported widths are not the interval means of the solved widths"}, {**detail, "worst": e})
+                ck.fail_case({**sig_b, "clause": BOOK_MEAN}, {**detail, "worst": e})
             if i % 2 == 0 and m <= 30 and np.all(np.abs(dw) > 0):
                 lines.append(f"hktail {qlist(rep)} {qlist(vliq)}")
                 plan.append(("hktail", (w_avg, dist, cum)))
@@ -486,12 +575,15 @@ def run(ck):
             # all points marked as adsorption, no pressure limits: the selection by limits presupposes increasing pressures)
             order_mode = "increasing" if rng.random() < 0.65 else rng.choice(["dip", "dip", "permuted", "duplicate"])
             ps = sorted({logu(rng, 1e-7, 0.6 if order_mode == "increasing" else 0.2) for _ in range(npts)})
-            load = [float(x) for x in np.cumsum([rng.uniform(0.05, 1) for _ in ps])]
+            whole = rng.random() < 0.45      # data recorded in whole mmol/g: the loading column of the isotherm holds integers
+            if whole:
+                load = [float(x) for x in np.cumsum([rng.randint(1, rng.choice([1, 3, 3, 8, 40])) for _ in ps])]
+            else:
+                load = [float(x) for x in np.cumsum([rng.uniform(0.05, 1) for _ in ps])]
+            how = rng.choice(ISO_INT if whole else ISO_FLOAT)
             idx = point_order(rng, order_mode, len(ps))
             ps, load = [ps[k] for k in idx], [load[k] for k in idx]
-            iso = pg.PointIsotherm(pressure=ps, loading=load, material="pgv-synth", adsorbate="N2", temperature=77.355, pressure_mode="relative", pressure_unit=None,
-                                   loading_basis="molar", loading_unit="mmol", material_basis="mass", material_unit="g", temperature_unit="K",
-                                   **({} if order_mode == "increasing" else {"branch": "ads"}))
+            iso = synth_isotherm(ps, load, 77.355, how, **({} if order_mode == "increasing" else {"branch": "ads"}))
             if order_mode != "increasing":
                 lim = (rng.choice([None, 0]), None)
             else:
@@ -502,6 +594,7 @@ def run(ck):
             strict = [j for j, p in enumerate(ps) if (not lo or p > lo) and (not hi or p < hi)]
             loose = [j for j, p in enumerate(ps) if (not lo or p >= lo) and (not hi or p <= hi)]
             ck.count(("entry", model, geo, str(lim), i), bucket="entry point:psd_microporous" + ("" if order_mode == "increasing" else ":pressures not increasing"))
+            ck.count(("entry loading", how, model[:2], i % 3), bucket=f"entry point:loading column given as:{how}")
             rec.clear()
             try:
                 res = pgc.psd_microporous(iso, psd_model=model, pore_geometry=geo, branch="ads", material_model="Carbon(HK)", adsorbate_model=ads_model, p_limits=lim)
@@ -517,6 +610,12 @@ def run(ck):
                     ck.fail_case({"model": model, "geometry": geo, "clause": "entry point does not solve the equation of the requested model"},
                                  {"pressure": ps, "limits": lim, "cheng_yang_applied": None if entry_rec is None else entry_rec["cy"],
                                   "entry_widths": [float(x) for x in res["pore_widths"][:5]], "model_widths": [float(x) for x in raw[0][:5]]})
+                if entry_rec is not None and len(entry_rec["L"]) <= b - a + 1 and len(entry_rec["p"]) == b - a + 1 and np.allclose(entry_rec["p"], np.array(ps)[a:b + 1], rtol=1e-12):
+                    # bookkeeping clauses at the entry point, against the formula (the raw function above receives the same numbers and would share a defect)
+                    bookkeeping({"model": model, "family": model[:2], "geometry": geo, "entry": "psd_microporous", "loading_dtype": "integer" if whole and how != "whole-number floats" else "float"},
+                                {"T": 77.355, "adsorbate": ads_model, "material_name": "Carbon(HK)", "pressure": ps, "loading": load, "loading_column_given_as": how, "p_limits": lim, "branch": "ads", "used": [a, b]},
+                                entry_rec["L"], geo, _ADSORBENT_MODELS["Carbon(HK)"]["molecular_diameter"], load[a:b + 1], ads_model,
+                                res["pore_widths"], res["pore_distribution"], res["pore_volume_cumulative"])
                 if entry_rec is not None and np.allclose(entry_rec["p"], np.array(ps)[a:b + 1], rtol=1e-12):
                     esig = {"model": model, "family": model[:2], "geometry": geo, "order": order_mode}
                     per_point(raw_fn, entry_rec, ps[a:b + 1], load[a:b + 1], 77.355, geo, ads_model, dict(_ADSORBENT_MODELS["Carbon(HK)"]), model.endswith("CY"), esig,
@@ -539,10 +638,11 @@ def run(ck):
         ads_n2 = pg.Adsorbate.find("N2")
         for T in (77.355, 87.3, 70.0, 77.355):
             ps = sorted({logu(rng, 1e-6, 0.15) for _ in range(12)})
-            load = list(np.cumsum([rng.uniform(0.05, 1) for _ in ps]))
-            iso = pg.PointIsotherm(pressure=ps, loading=load, material="pgv-synth", adsorbate="N2", temperature=T, pressure_mode="relative", pressure_unit=None,
-                                   loading_basis="molar", loading_unit="mmol", material_basis="mass", material_unit="g", temperature_unit="K")
-            ck.count(("entry-db-params", T), bucket="entry point:adsorbate parameters from the isotherm")
+            whole = rng.random() < 0.5
+            load = [float(x) for x in np.cumsum([rng.randint(1, 4) if whole else rng.uniform(0.05, 1) for _ in ps])]
+            how = rng.choice(ISO_INT if whole else ISO_FLOAT)
+            iso = synth_isotherm(ps, load, T, how)
+            ck.count(("entry-db-params", T, how), bucket="entry point:adsorbate parameters from the isotherm")
             try:
                 res = pgc.psd_microporous(iso, psd_model="HK", pore_geometry="slit", branch="ads", material_model="Carbon(HK)", p_limits=(None, 0.2))
             except Exception as e:  # noqa
@@ -552,8 +652,9 @@ def run(ck):
             want = [x * ads_n2.molar_mass() / pg.Adsorbate.find("N2").liquid_density(T) / 1000 for x in load[a:b + 1]][1:]
             cum = [float(x) for x in res["pore_volume_cumulative"]]
             if len(cum) != len(want) or max(relerr(x, y) for x, y in zip(cum, want)) > 1e-9:
-                ck.fail_case({"model": "HK", "geometry": "slit", "clause": "cumulative pore volume is not the adsorbed amount as liquid volume", "entry": "psd_microporous without adsorbate_model"},
-                             {"T": T, "got": cum[:3], "expected": want[:3]})
+                ck.fail_case({"model": "HK", "geometry": "slit", "clause": "cumulative pore volume is not the adsorbed amount as liquid volume", "entry": "psd_microporous without adsorbate_model",
+                              "loading_dtype": "integer" if whole and how != "whole-number floats" else "float"},
+                             {"T": T, "pressure": ps, "loading": load, "loading_column_given_as": how, "got": cum[:3], "expected": want[:3]})
     finally:
         pm._solve_hk, pm._solve_hk_cy = orig_hk, orig_cy
 
